@@ -231,8 +231,8 @@ fn exh(ctx: &mut Ctx, sub: &str, start: u64, count: u64) {
 
 fn worker(ctx: &mut Ctx) {
     let cases = match ctx.cfg.tier {
-        Tier::Quick => 24_000u64,
-        Tier::Thorough => 1_000_000u64,
+        Tier::Quick => 300_000u64,
+        Tier::Thorough => 6_000_000u64,
     };
     for sub in ["values", "corrections", "flags", "pairs"] {
         let total = exh_size(sub);
